@@ -16,7 +16,7 @@ let parse_cfg (t : string) : cfg =
     c_mp4 = p.(6).[0] = '1'; c_nx4 = String.length p.(6) > 1 && p.(6).[1] = '1';
     c_role = nn (Char.code p.(7).[0] - 48); c_strict = p.(7).[1] = '1';
     c_rr = List.nth rr 0 = "1"; c_cluster = nn (ios (List.nth rr 1));
-    c_imp = (match p.(9) with "A" -> ImpAccept | "R" -> ImpRewrite | _ -> ImpReject);
+    c_imp = (match p.(9).[0] with 'A' -> ImpAccept | 'R' -> ImpRewrite | _ -> ImpReject);
     c_passive = p.(10) = "a" }
 
 let parse_cap (t : string) : cap =
@@ -41,6 +41,7 @@ let parse_msg (s : string) : msg =
     MOpen { o_ver = nn (ios v); o_asn = nn (ios a); o_hold = nn (ios h); o_id = nn (ios i); o_caps = cs }
   | ["U"; a; w] -> MUpdate (parse_ids a, parse_ids w)
   | ["P"; r; k; v] -> MPoison (nn (ios r), k = "a", nn (ios v))
+  | ["A"; r; _] -> MUpdate ([nn (ios r)], [])   (* an ordinary announcement carrying an extra optional attribute *)
   | ["N"; c; s] -> MNotification (nn (ios c), nn (ios s))
   | ["H"; mk; l; t; av] -> MHeader (mk = "1", nn (ios l), nn (ios t), nn (ios av))
   | ["T"; k] -> MTrunc (nn (ios k))
@@ -57,6 +58,9 @@ let parse_event (t : string) : int * ev =
     else if r = "ka" then EKeepaliveTimer
     else if r = "cr" then EConnectRetry
     else if r = "brk" then EBreak
+    else if String.length r = 3 && String.sub r 0 2 = "ri" then
+      EReplaceImport (match r.[2] with 'A' -> ImpAccept | 'R' -> ImpRewrite | _ -> ImpReject)
+    else if String.length r = 3 && String.sub r 0 2 = "re" then EReplaceExport
     else if r = "hp0" then EHoldPoll false
     else if r = "hp1" then EHoldPoll true
     else if String.length r > 2 && String.sub r 0 2 = "m:" then EMsg (parse_msg (String.sub r 2 (String.length r - 2)))
@@ -104,9 +108,10 @@ let obs_token (y : sys) (sid : int) (outs : out list) : string =
         b01 (int_of_n (rc_count y.y_cid (cluster_of ci)) > 0)) y.y_sess) in
     let all = String.concat "" (List.map (fun (_, si) ->
         Printf.sprintf "%c%s" (st_letter si.s_st) (b01 si.s_att)) y.y_sess) in
-    Printf.sprintf "%s/%c/%s/%c/%s/%d/%s/u%d/i%s|L%s/a%sk%s/c%d.%d/T%s" fr (st_letter s.s_st) (b01 s.s_att)
+    let reg b = if s.s_att && b then "1" else "x" in
+    Printf.sprintf "%s/%c/%s/%c/%s/%d/%s/u%d/i%s/g%s.%s|L%s/a%sk%s/c%d.%d/T%s" fr (st_letter s.s_st) (b01 s.s_att)
       (match s.s_conn with NoConn -> 'n' | ConnOpen _ -> 'o' | ConnClosed -> 'c')
-      (if sent = [] then "-" else String.concat "+" sent) (int_of_n s.s_retry) negs (int_of_n s.s_upd) adjs
+      (if sent = [] then "-" else String.concat "+" sent) (int_of_n s.s_retry) negs (int_of_n s.s_upd) adjs (reg c.c_v4) (reg c.c_v6)
       (if loc = [] then "-" else String.concat "," loc) asns cids (int_of_n y.y_cl4) (int_of_n y.y_cl6) all
   end
 
